@@ -247,6 +247,7 @@ inductive Clause where
   | refusedLeft
   | foreignEntry
   -- the end of a case
+  | endMixedRemove
   | endMidFan
   | endSkippedAck
   | endF19
@@ -303,6 +304,8 @@ structure MSlot where
   csubs : List Nat := []
   /-- read keys whose resource-updated was handled while the URI was not in cs.resourceSubs -/
   offTable : List Key := []
+  /-- kinds whose last effective change was a Remove* call that named absent or repeated names beside a registered one -/
+  rmMixed : List Kind := []
 
 /-- A fan-out of `notifySessions(kind)` whose loop is held before every write. -/
 structure MFan where
@@ -416,7 +419,8 @@ def freshState (ca cb cc : Cap) : MState :=
 
 /-- one slot at an effective change of kind `k` (`servedMid`: a held fan-out of the kind has already
 written to this slot: what it writes from now on was decided before this change) -/
-def changeSlot (k : Kind) (servedMid : Bool) (d : MSlot) : MSlot :=
+def changeSlot (k : Kind) (servedMid : Bool) (mixed : Bool) (d : MSlot) : MSlot :=
+  let d := { d with rmMixed := if mixed then addNew d.rmMixed k else d.rmMixed.filter (· != k) }
   let d := if servedMid && !d.midFan.contains k then { d with midFan := d.midFan ++ [k] } else d
   if d.connected && !d.owed.contains k then { d with owed := d.owed ++ [k] } else d
 
@@ -424,13 +428,18 @@ def bumpV (ver : FSet → Nat) (f : FSet) : FSet → Nat :=
   fun f' => if f' == f then ver f + 1 else ver f'
 
 def bumpC (cnt : FSet → Nat) (f : FSet) (e : Eff) : FSet → Nat :=
-  fun f' => if f' == f then (match e with | .add => cnt f + 1 | .remove => cnt f - 1 | _ => cnt f) else cnt f'
+  fun f' => if f' == f then (match e with | .add => cnt f + 1 | .remove => cnt f - 1 | .removeN n _ => cnt f - n | _ => cnt f) else cnt f'
 
 /-- the slots a held fan-out of kind `k` has already written to -/
 def servedMidOf (fans : Kind → Option MFan) (k : Kind) : List Slot :=
   match fans k with
   | some fan => fan.served
   | none => []
+
+/-- the `Remove*` call named absent or repeated names beside a registered one -/
+def mixedOf : Eff → Bool
+  | .removeN _ mixed => mixed
+  | _ => false
 
 /-- `change f e`, answered `ok`: an effective change of a kind whose capability is not switched off puts
 every connected session in debt. -/
@@ -440,7 +449,7 @@ def monChange (m : MState) (f : FSet) (e : Eff) : MState :=
   let m := { m with ver := bumpV m.ver f, cnt := bumpC m.cnt f e }
   if m.cap k == .off then m else
   -- a held fan-out of the kind: what it writes from now on was decided before this change
-  { m with slots := fun i => changeSlot k ((servedMidOf m.fans k).contains i) (m.slots i) }
+  { m with slots := fun i => changeSlot k ((servedMidOf m.fans k).contains i) (mixedOf e) (m.slots i) }
 
 /-- the clause a delivery of a complete fan-out (`cbrun k`) raises -/
 def cbDeliveryClause (m : MState) (k : Kind) (x : SDelivery) : Option Clause :=
@@ -462,7 +471,8 @@ def cbCheck (m : MState) (k : Kind) (ds : List SDelivery) : Option Clause :=
 notification was sent after the change that created it) and its client handled the notification -/
 def gotChanged (m : MState) (k : Kind) (d : MSlot) : MSlot :=
   ({ d with owed := d.owed.filter (· != k), skipped := d.skipped.filter (· != k),
-            skippedAck := d.skippedAck.filter (· != k), midFan := d.midFan.filter (· != k) }).handled m (keysOfKind k)
+            skippedAck := d.skippedAck.filter (· != k), midFan := d.midFan.filter (· != k),
+            rmMixed := d.rmMixed.filter (· != k) }).handled m (keysOfKind k)
 
 /-- an entitled session in debt was not reached by a callback -/
 def skippedBy (k : Kind) (d : MSlot) : MSlot :=
@@ -656,7 +666,8 @@ def endSlotClause (m : MState) (i : Slot) : Option Clause :=
     match (if d.modern then d.lostClause (.kind k) .fin else none) with
     | some c => some c
     | none =>
-      if d.midFan.contains k then some .endMidFan
+      if d.rmMixed.contains k then some .endMixedRemove
+      else if d.midFan.contains k then some .endMidFan
       else if d.modern && d.skippedAck.contains k then some .endSkippedAck
       else if d.modern && d.endedOther then some .endF19
       else if d.skipped.contains k then some .endSkipped
